@@ -888,7 +888,7 @@ func runHistory(r *vh.Run, focus string, i int) {
 	}
 	rng := r.Rand(i)
 	kind := []vh.StoreKind{vh.Mem, vh.Dir, vh.MemDir}[i%3]
-	u := vh.GenUniverse(rng, vh.UOpts{Aliasing: true, Algs: (i/3)%3 == 0, Docker: (i/3)%2 == 1, BareMT: i%4 == 1, Tag: fmt.Sprint(i)})
+	u := vh.GenUniverse(rng, vh.UOpts{Aliasing: true, Algs: (i/3)%3 == 0, Docker: (i/3)%2 == 1, BareMT: i%4 == 1, Foreign: i%3 == 2, NArtifact: map[bool]int{true: 10, false: 0}[i%6 == 4], Tag: fmt.Sprint(i)})
 	root := ""
 	if kind != vh.Mem {
 		root = r.TempDir("gc")
@@ -905,7 +905,13 @@ func runHistory(r *vh.Run, focus string, i int) {
 		pol = rows[i]
 		pol.Grace = -1
 	}
-	srv := vh.New(vh.Conf(kind, root, pol))
+	gconf := vh.Conf(kind, root, pol)
+	if i%6 == 4 {
+		// a small (legal) manifest limit: every pushed manifest is below it, the referrers answers the registry
+		// generates for a subject with many artifacts are not - they are not pushed manifests
+		gconf.API.Manifest.Limit = 2000
+	}
+	srv := vh.New(gconf)
 	h := &hist{r: r, focus: focus, idx: i, rng: rng, srv: srv, kind: kind, root: root, pol: pol, young: map[string]bool{}, touched: map[string]bool{}, unlisted: map[string]bool{}}
 	h.w = vh.NewWorld(r, srv, u, kind, "r")
 	if kind == vh.MemDir && (i/3)%2 == 0 {
@@ -927,7 +933,7 @@ func runHistory(r *vh.Run, focus string, i int) {
 			}
 		}
 		_ = ds.Close()
-		srv = vh.New(vh.Conf(kind, root, pol))
+		srv = vh.New(gconf)
 		h.srv = srv
 		h.w.H, h.w.Kind = srv, kind
 		for d := range m.Stored {
@@ -1150,6 +1156,11 @@ func main() {
 		nwild = r.N(48, 480)
 	}
 	vh.Parallel(nwild, 16, func(i int) { wildListing(r, i) })
+	nbig := 0
+	if focus == "C05" {
+		nbig = r.N(36, 360)
+	}
+	vh.Parallel(nbig, 16, func(i int) { bigReferrers(r, i) })
 	vh.Parallel(n+ns+nslow+nnest, 16, func(i int) {
 		switch {
 		case i < n:
